@@ -341,11 +341,22 @@ theorem inv_step {s s' : St} {a : Act} (h : Inv s) (hs : step s a = some s') : I
       simp only [bne_iff_ne, ne_eq, Decidable.not_not] at hc
       have hne : ¬ (s.run = .idle ∨ s.run = .entered) := fun he => by
         have := (h.early he).1; rw [hc] at this; cases this
-      split at hs
-      · cases hs
-        exact ⟨h.g, h.nilBoot, h.ctxSet, fun he => absurd he hne, by simp, h.returned⟩
-      · cases hs
-        exact ⟨h.g, h.nilBoot, h.ctxSet, fun he => absurd he hne, by simp, h.returned⟩
+      cases hs
+      exact ⟨h.g, h.nilBoot, h.ctxSet, fun he => absurd he hne, by simp, h.returned⟩
+  | rlAfterCb =>
+    simp only [step] at hs
+    split at hs
+    · rename_i cfg hc
+      have hne : ¬ (s.run = .idle ∨ s.run = .entered) := fun he => by
+        have := (h.early he).1; rw [hc] at this; cases this
+      cases hs
+      exact ⟨h.g, h.nilBoot, h.ctxSet, fun he => absurd he hne, by simp, h.returned⟩
+    · rename_i r _ hc
+      have hne : ¬ (s.run = .idle ∨ s.run = .entered) := fun he => by
+        have := (h.early he).1; rw [hc] at this; cases this
+      cases hs
+      exact ⟨h.g, h.nilBoot, h.ctxSet, fun he => absurd he hne, by simp, h.returned⟩
+    · cases hs
   | rlDecide =>
     simp only [step] at hs
     split at hs
